@@ -235,6 +235,16 @@ def prove(ctx, prop_modules, extra_token_dirs=()):
             ths = theorems_of(m)
         except FileNotFoundError:
             ctx.add_ob(f"module:{m}", "theorem", False, "module file missing"); ok_all = False; continue
+        # statements kept as `def …_target : Prop` are the parts of the property NOT yet proved
+        try:
+            src_nc = strip_comments(open(os.path.join(LEAN, *m.split(".")) + ".lean").read())
+            for t in re.findall(r"^\s*def\s+(\S*_target)\b", src_nc, re.M):
+                ctx.partial.append(f"{m}: target statement `{t}` is stated but not proved")
+            for t in ths:
+                if t.endswith("_partial"):
+                    ctx.partial.append(f"{m}: theorem `{t}` proves only part of its target")
+        except OSError:
+            pass
         ok, log = lake_build(ctx, [m])
         if not ok:
             # the module (or a dependency) does not check: every theorem in it is undischarged
@@ -277,7 +287,8 @@ def cargo_build(ctx, bins, release=False):
 
 
 def bin_path(name, release=False):
-    return os.path.join(HARNESS, "target", "release" if release else "debug", name)
+    target = os.environ.get("CARGO_TARGET_DIR", os.path.join(HARNESS, "target"))
+    return os.path.join(target, "release" if release else "debug", name)
 
 
 def driver_path():
